@@ -110,6 +110,42 @@ func inductionStep(l *Loop, v ssa.Value) (*ssa.Phi, bool) {
 	return phi, inside > 0
 }
 
+// inductionStepDown: v is a phi of the loop that is lowered by a positive constant on every back edge; returns the
+// phi and the (largest) step.
+func inductionStepDown(l *Loop, v ssa.Value) (*ssa.Phi, int64, bool) {
+	if cv, ok := v.(*ssa.Convert); ok {
+		return inductionStepDown(l, cv.X)
+	}
+	phi, ok := v.(*ssa.Phi)
+	if !ok || !l.Blocks[phi.Block()] {
+		return nil, 0, false
+	}
+	inside := 0
+	var step int64
+	for i, e := range phi.Edges {
+		if !l.Blocks[phi.Block().Preds[i]] {
+			continue
+		}
+		inside++
+		bo, ok := e.(*ssa.BinOp)
+		if !ok || bo.X != ssa.Value(phi) {
+			return nil, 0, false
+		}
+		k, isC := constInt(bo.Y)
+		switch {
+		case isC && bo.Op == token.SUB && k >= 1:
+		case isC && bo.Op == token.ADD && k <= -1:
+			k = -k
+		default:
+			return nil, 0, false
+		}
+		if k > step {
+			step = k
+		}
+	}
+	return phi, step, inside > 0
+}
+
 // classifyLoop decides why loop l of fn terminates.
 func (p *Prog) classifyLoop(fn *ssa.Function, l *Loop) (loopClass, bool) {
 	// geometric / divisive first: they give constant bounds
@@ -197,6 +233,47 @@ func (p *Prog) classifyLoop(fn *ssa.Function, l *Loop) (loopClass, bool) {
 				bk = "const"
 			}
 			return loopClass{kind, bk, "induction variable advances by a positive constant towards a loop-invariant bound; the test is on every cycle"}, true
+		}
+		// continue while ind > bound / ind >= bound, the induction variable counting down
+		tryDown := func(ind, bound ssa.Value, op token.Token) (loopClass, bool) {
+			if !exitsFalse {
+				return loopClass{}, false
+			}
+			phi, step, ok := inductionStepDown(l, ind)
+			if !ok || !definedOutside(l, bound) {
+				return loopClass{}, false
+			}
+			bt, isB := phi.Type().Underlying().(*types.Basic)
+			if !isB || bt.Info()&types.IsInteger == 0 {
+				return loopClass{}, false
+			}
+			// the variable must be able to fall below the bound without wrapping around in its own type
+			// (`for i := uint8(7); i >= 0; i--` never ends)
+			bits := uint(p.U.Sizes.Sizeof(bt) * 8)
+			var min int64 = math.MinInt64
+			if bt.Info()&types.IsUnsigned != 0 {
+				min = 0
+			} else if bits < 64 {
+				min = -(int64(1) << (bits - 1))
+			}
+			k, isC := constInt(bound)
+			if !isC {
+				return loopClass{}, false
+			}
+			last := k - step // with `>=`: the smallest value that still passes is bound; after the step: bound-step
+			if op == token.GTR {
+				last = k + 1 - step
+			}
+			if last < min {
+				return loopClass{}, false
+			}
+			return loopClass{"counted", "const", "induction variable is lowered by a positive constant towards a constant bound it can pass without wrapping; the test is on every cycle"}, true
+		}
+		switch bo.Op {
+		case token.GTR, token.GEQ:
+			if lc, ok := tryDown(bo.X, bo.Y, bo.Op); ok {
+				return lc, true
+			}
 		}
 		switch bo.Op {
 		case token.LSS, token.LEQ:
